@@ -19,6 +19,10 @@ def make(rng, transition_only=False, n_states=None, n_events=None, limits='mixed
         lo = 1 if x0[i] >= 1 else 0       # the start lies inside the declared limits (the property's premise), also for an empty compartment
         lims.append([None, (0, None), (0, hi), (lo, hi)][kind])
     theta = rng.uniform(0.2, 1.5, size=len(spec['params']))
+    if any(t[0] == 'B' for _r, trs in spec['events'] for t in trs):
+        # births can grow without bound (a rate proportional to the population it feeds explodes within a short horizon): every
+        # state of such a model gets an upper limit, so that the path stops instead of running away
+        lims = [(l if (l is not None and l[1] is not None) else ((0 if l is None else l[0]), float(x0[i] + rng.randint(5, 40)))) for i, l in enumerate(lims)]
     return spec, x0, lims, theta
 
 
